@@ -75,7 +75,14 @@ def check(ctx):
                     ctx.violation("enum-dup:%s:%d" % (k, v), "%s and %s of %s share the number %d" % (seen[v], n, k, v),
                                   {"kind": "enum-dup", "enum": k, "names": [seen[v], n], "value": v})
                 seen[v] = n
-        ctx.oblige("spec-on-impl", "compiled enumerators agree with the IEEE table; values distinct per kind", found == 0, "%d vouched, %d unvouched" % (vouched, unvouched))
+        # a name published for an element ID the standard reserves (the list is the Spec's: `spec-reserved-tags`)
+        reserved = set(int(x) for x in diffrun.run_driver(["spec-reserved-tags"])[0].split())
+        for n, v in pr["enums"].get("libwifi_tag_numbers", []):
+            if v in reserved:
+                found += 1
+                ctx.violation("enum-reserved:%s" % n, "%s is published with the number %d, which IEEE 802.11 reserves (no element has this ID)" % (n, v),
+                              {"kind": "enum-reserved", "enum": "libwifi_tag_numbers", "name": n, "observed": v})
+        ctx.oblige("spec-on-impl", "compiled enumerators agree with the IEEE table; values distinct per kind; no element ID on a reserved number", found == 0, "%d vouched, %d unvouched, %d reserved numbers" % (vouched, unvouched, len(reserved)))
         ctx.coverage["enumerators_vouched"] = vouched
         ctx.coverage["enumerators_unvouched"] = unvouched
         ctx.sample({"enumerator": pr["enums"]["libwifi_tag_numbers"][29], "ieee": spec["libwifi_tag_numbers"].get(pr["enums"]["libwifi_tag_numbers"][29][0])})
@@ -154,6 +161,9 @@ def replay(rp):
     if k == "enum":
         cur = dict(pr["enums"][rp["enum"]]).get(rp["name"])
         return cur == rp["expected"], "%s = %s (IEEE %s)" % (rp["name"], cur, rp["expected"])
+    if k == "enum-reserved":
+        cur = dict(pr["enums"][rp["enum"]]).get(rp["name"])
+        return cur != rp["observed"], "%s = %s (a reserved number: %s)" % (rp["name"], cur, rp["observed"])
     if k == "enum-missing":
         return rp["name"] in dict(pr["enums"][rp["enum"]]), "%s published: %s" % (rp["name"], rp["name"] in dict(pr["enums"][rp["enum"]]))
     if k == "enum-dup":
